@@ -339,8 +339,9 @@ def lollipop_history(n, all_positions, nflips):
 
 
 # --------------------------------------------------------------------------- (iv) registering new leaves does not disturb old pairs
-def registration_group():
-    """stations / orbit frames created under fresh names: every old pair of orientations and centres keeps its route; generated
+def registration_group(first_kind):
+    """(one group per kind of the first registration: the groups run in parallel processes, each on its own registries)
+    stations / orbit frames created under fresh names: every old pair of orientations and centres keeps its route; generated
     `<a>_to_<b>` attribute names do not collide (concrete run on the real registries; interleaving order symbolic)"""
     def body(Node):
         import importlib
@@ -362,10 +363,13 @@ def registration_group():
         ops = []
         before_attrs = set(dir(orient.Orientation)) | set(dir(center.Center))
         for k in range(3):
-            kind = choice(f"k{k}", 3)
+            kind = first_kind if k == 0 else choice(f"k{k}", 5)
             name = f"vf_{tag}_{k}"
             if kind == 0:
                 stations.create_station(name, (10.0 * k, 20.0, 100.0))
+            elif kind in (3, 4):
+                # a station attached to another rotating frame than the default WGS84 / ITRF
+                stations.create_station(name, (10.0 * k, 20.0, 100.0), parent_frame=[frames.TOD, frames.PEF][kind - 3])
             elif kind == 1:
                 sv = StateVector([7e6, 0, 0, 0, 7.5e3, 0], Date(2020, 1, 1), "cartesian", "EME2000")
                 frames.orbit2frame(name, sv, orientation="QSW")
@@ -379,7 +383,7 @@ def registration_group():
                 return ops, f"route between pre-existing frames changed after registering {name}: {d}"
             # the new leaf is reachable from / reaches every old orientation when it has its own orientation node
             fr = frames.get_frame(name)
-            if kind in (0, 1):
+            if kind in (0, 1, 3, 4):
                 for a in base:
                     p = [x.name for x in fr.orientation.path(a)]
                     q = [x.name for x in nodes[a].path(fr.orientation.name)]
@@ -389,8 +393,9 @@ def registration_group():
             if cp[0] != name or cp[-1] != "Earth":
                 return ops, f"centre of {name} does not reach Earth: {cp}"
         return ops, None
-    return run_choice_group("registration", body, "3 registrations (station / QSW orbit frame / inertial-orientation orbit frame in any "
-                            "mix) under fresh names never change the route between two pre-existing frames", maxpaths=100)
+    return run_choice_group(f"registration{first_kind}", body, "3 registrations (station on ITRF / TOD / PEF, QSW orbit frame, "
+                            "inertial-orientation orbit frame, in any mix; the first of kind %d) under fresh names never change the route "
+                            "between two pre-existing frames" % first_kind, maxpaths=60)
 
 
 # --------------------------------------------------------------------------- CrossHair front end
@@ -527,7 +532,8 @@ def groups(tier):
     g["lollipop5"] = lollipop_history(5, True, 0 if tier == "quick" else 2)
     if tier != "quick":
         g["cycle6"] = cycle_history(6, 3)
-    g["registration"] = registration_group
+    for fk in range(5):
+        g[f"registration{fk}"] = (lambda fk=fk: registration_group(fk))
     for p in range(6):
         g[f"crosshair{p}"] = crosshair_group(p)
     return g
